@@ -28,6 +28,19 @@ type fieldSpec struct {
 // repo method whose body stores a parameter into a receiver field).
 func (c *Ctx) fieldWrites(obj ssa.Value, path []string) []valueCase {
 	var out []valueCase
+	// object built by a repository constructor: the constructor's stores,
+	// expressed in terms of the call's arguments
+	if call, ok := obj.(*ssa.Call); ok {
+		if g := staticCallee(&call.Call); g != nil && g.Blocks != nil && strings.HasPrefix(fnPkgPath(g), modPath) {
+			t := &tracer{c: c, visited: map[ssa.Value]bool{}, inline: true}
+			for _, o := range dedupOrigins(t.trace(call, path)) {
+				if o.Kind == "call" && o.Val == ssa.Value(call) {
+					continue // constructor not understood
+				}
+				out = append(out, valueCase{o, append([]Guard{}, o.Guards...), call})
+			}
+		}
+	}
 	for _, s := range c.storesTo(obj, path) {
 		for _, o := range c.origins(s.Val) {
 			o2 := o
